@@ -212,11 +212,12 @@ BLIND_OPS = [("get_byte",), ("get_char",), ("get_short",), ("get_bytes", 2), ("g
              ("mode", 1), ("mode", 0), ("next_chunk",), ("get_encoded_string",), ("get_int",)]
 
 
-def blind_case(data, hist):
+def blind_case(data, hist, container="bytes"):
     """Run a history WITHOUT reading any property in between (an observation must not be what keeps the reader right);
     compare every return value and the final state."""
     cls = _reader_cls()
-    real, model = cls(bytes(data)), RefReader(bytes(data))
+    wrap = {"bytes": bytes, "bytearray": bytearray, "memoryview": lambda b: memoryview(bytes(b))}[container]
+    real, model = cls(wrap(bytes(data))), RefReader(bytes(data))
     for i, op in enumerate(hist):
         op = tuple(op)
         if op[0] == "mode":
@@ -233,10 +234,11 @@ def blind_case(data, hist):
 def _blind(data, depth):
     count, bad = 0, []
     for hist in itertools.product(BLIND_OPS, repeat=depth):
-        count += 1
-        what = blind_case(data, hist)
-        if what and len(bad) < 2:
-            bad.append(({"data": bytes(data), "history": [list(o) for o in hist]}, what))
+        for container in ("bytes", "bytearray", "memoryview"):
+            count += 1
+            what = blind_case(data, hist, container)
+            if what and len(bad) < 2:
+                bad.append(({"data": bytes(data), "history": [list(o) for o in hist], "container": container}, f"(data given as {container}) {what}"))
     return count, bad
 
 
@@ -333,7 +335,7 @@ def run(tier, seed):
             "a state is distinct by (generic snapshot of the real reader, model state); every transition is "
             "one real call compared with the reference (return/exception class, position, remaining, mode); "
             "slices are transitions into the child reader; independence_executions are (parent op, child op) "
-            "orders replayed against two reference readers, and every history of 3 operations over an 11-op menu run WITHOUT intermediate property reads (data length 2..3 quick, 2..4 thorough)"
+            "orders replayed against two reference readers, and every history of 3 operations over an 11-op menu run WITHOUT intermediate property reads, with the data given as bytes, bytearray and memoryview (data length 2..3 quick, 2..4 thorough)"
         ),
         "samples": samples[:4],
     }
@@ -360,7 +362,7 @@ def replay(case):
             [(w, tuple(o)) for w, o in case["seq"]],
         )
     if case["kind"] == "blind":
-        return blind_case(bytes(case["data"]), [tuple(o) for o in case["history"]])
+        return blind_case(bytes(case["data"]), [tuple(o) for o in case["history"]], case.get("container", "bytes"))
     if case["kind"] == "tlc-edge":
         from .. import tlc
 
